@@ -2,4 +2,5 @@ SPECIFICATION Spec
 CONSTANT MaxLen = 7
 INVARIANT MachineIsDefinition
 INVARIANT RowsMonotone
+INVARIANT RunMachineIsMachine
 CHECK_DEADLOCK FALSE
